@@ -10,6 +10,7 @@ import (
 	"io"
 	"math/rand"
 	"net"
+	"os"
 	"reflect"
 	"regexp"
 	"runtime"
@@ -155,6 +156,11 @@ func RunOne(t *testing.T, sc *Scenario, seed uint64, idx int, mode string, repla
 				s.Close()
 			}
 			synctest.Wait()
+			if os.Getenv("DSIM_DEBUG_STACKS") != "" {
+				buf := make([]byte, 1<<20)
+				n := runtime.Stack(buf, true)
+				fmt.Fprintf(os.Stderr, "---- goroutines at the end of the bubble\n%s\n", buf[:n])
+			}
 			res.Hash = w.Log.Hash()
 			res.LogLen = w.Log.Len()
 			res.Events = w.Events
